@@ -40,8 +40,15 @@ def load_known():
         with open(KNOWN_FILE) as f:
             d = json.load(f)
     except FileNotFoundError:
-        return []
-    return d.get("findings", [])
+        d = {}
+    out = list(d.get("findings", []))
+    ddir = os.path.join(ROOT, "known_findings.d")
+    if os.path.isdir(ddir):
+        for fn in sorted(os.listdir(ddir)):
+            if fn.endswith(".json"):
+                with open(os.path.join(ddir, fn)) as f:
+                    out.extend(json.load(f).get("findings", []))
+    return out
 
 
 def repo_commit():
